@@ -18,6 +18,15 @@ func c01ConstMap(pk *packages.Package, o types.Object) *ast.CompositeLit {
 	if _, isMap := v.Type().Underlying().(*types.Map); !isMap {
 		return nil
 	}
+	return c01ConstTable(pk, o)
+}
+
+// c01ConstTable is c01ConstMap for a package-level table of any indexable type (map, array, slice).
+func c01ConstTable(pk *packages.Package, o types.Object) *ast.CompositeLit {
+	v, ok := o.(*types.Var)
+	if !ok || v.IsField() || v.Pkg() != pk.Types || v.Parent() != pk.Types.Scope() {
+		return nil
+	}
 	info := pk.TypesInfo
 	var lit *ast.CompositeLit
 	written := false
